@@ -509,6 +509,14 @@ func scenarios(thorough bool) []scenario {
 					add("client", "call", "oversize-request", "70000-bytes")
 					add("server", "call", "oversize-response", "65500-bytes")
 					add("server", "call", "oversize-response", "70000-bytes")
+					// every size around the point where header plus encoded body stop fitting a datagram (the encoding
+					// adds about ten bytes): a boundary that is off by the header size shows only in this window
+					for size := 65478; size <= 65499; size++ {
+						add("server", "call", "oversize-response", fmt.Sprintf("%d-bytes", size))
+						if size%3 == 0 {
+							add("client", "call", "oversize-request", fmt.Sprintf("%d-bytes", size))
+						}
+					}
 				}
 				for _, fault := range rawClientFaults[tr] {
 					add("server", "raw", classOfRawFault(fault), fault)
